@@ -9,49 +9,67 @@ import (
 )
 
 func (e *kvElection) watchLoop(ctx context.Context) {
-	watcher, err := e.kv.Watch(e.key)
-	if err != nil {
-		log := e.getLogger()
-		log.Error("watch_failed",
-			append(e.logWithContext(ctx),
-				zap.Error(err),
-				zap.String("key", e.key),
-			)...,
-		)
-		return
-	}
-	defer watcher.Stop()
-
-	log := e.getLogger()
-	log.Debug("watch_started",
-		append(e.logWithContext(ctx),
-			zap.String("key", e.key),
-		)...,
-	)
-
 	checkTicker := time.NewTicker(500 * time.Millisecond)
 	defer checkTicker.Stop()
 
+	// The watcher is (re-)established at the top of the loop: a failed Watch call
+	// or a closed update channel must not end the loop, otherwise this follower
+	// would never compete again. Retries are paced by the periodic check ticker.
+	var watcher Watcher
+	var updates <-chan Entry
+	defer func() {
+		if watcher != nil {
+			watcher.Stop()
+		}
+	}()
+
 	for {
+		if watcher == nil {
+			w, err := e.kv.Watch(e.key)
+			if err != nil {
+				log := e.getLogger()
+				log.Error("watch_failed",
+					append(e.logWithContext(ctx),
+						zap.Error(err),
+						zap.String("key", e.key),
+					)...,
+				)
+			} else {
+				watcher = w
+				updates = w.Updates()
+				log := e.getLogger()
+				log.Debug("watch_started",
+					append(e.logWithContext(ctx),
+						zap.String("key", e.key),
+					)...,
+				)
+			}
+		}
+
 		select {
 		case <-ctx.Done():
 			return
-		case entry, ok := <-watcher.Updates():
+		case entry, ok := <-updates: // nil channel while there is no watcher: never ready
 			if !ok {
 				log := e.getLogger()
 				log.Debug("watch_closed",
 					e.logWithContext(ctx)...,
 				)
+				// The watcher has ended by itself; drop it (no Stop on a finished watcher).
+				watcher = nil
+				updates = nil
+				// Wait for the next periodic check before watching again.
+				select {
+				case <-ctx.Done():
+					return
+				case <-checkTicker.C:
+				}
 				// When watcher closes, check if key still exists
 				// If not, trigger re-election
 				if !e.IsLeader() {
-					e.wg.Add(1)
-					go func() {
-						defer e.wg.Done()
-						e.checkKeyAndReelect(ctx)
-					}()
+					e.checkKeyAndReelect(ctx)
 				}
-				return
+				continue
 			}
 			e.handleWatchEvent(entry)
 		case <-checkTicker.C:
